@@ -98,7 +98,7 @@ func followerCaughtUp(c *Cli) bool {
 var c06Frozen = freezeAllBut("follow", "Serve#2", "Serve#4")
 
 func checkC06(job *Job, res *Result) {
-	res.Rule = "FAULT: initial follower state {empty, a true prefix of the leader's log, unrelated data (objects + channel), a non-empty log with an empty dataset; thorough: the same with logs > 512 KiB so that the checksum search runs} x ALL event sequences of length <= D over {leader write, 300 kB leader write, leader AOFSHRINK to completion, follower clean restart, replication connection kill, follower paused during two leader writes, follower stalled mid-download across a leader write + AOFSHRINK + write, AOFSHRINK on the follower}; settle under virtual time; distinct = distinct (initial state, event sequence, final leader dump)"
+	res.Rule = "FAULT: initial follower state {empty, a true prefix of the leader's log, unrelated data (objects + channel), a non-empty log with an empty dataset, a > 512 KiB log that shares its first 600 kB with the leader and then diverges; thorough: the same with logs > 512 KiB so that the checksum search runs} x ALL event sequences of length <= D over {leader write, 300 kB leader write, leader AOFSHRINK to completion, follower clean restart, replication connection kill, follower paused during two leader writes, follower stalled mid-download across a leader write + AOFSHRINK + write, AOFSHRINK on the follower}; settle under virtual time; distinct = distinct (initial state, event sequence, final leader dump)"
 	res.Assumptions = append(res.Assumptions,
 		"both servers run in one process on the in-memory network; time is virtual (1 s reconnect delay and 250 ms broadcasts cost nothing)",
 		"no TTLs in this part's workload (deadlines are the business of part c06ttl)",
@@ -107,7 +107,7 @@ func checkC06(job *Job, res *Result) {
 	if d, ok := job.Params["depth"].(float64); ok {
 		depth = int(d)
 	}
-	inits := []string{"empty", "prefix", "unrelated", "emptied", "big-empty"}
+	inits := []string{"empty", "prefix", "unrelated", "emptied", "big-empty", "big-diverged"}
 	if job.Tier == "thorough" {
 		inits = append(inits, "big-prefix", "big-unrelated")
 	}
@@ -175,6 +175,24 @@ func checkC06(job *Job, res *Result) {
 					b, _ := os.ReadFile(filepath.Join(ldir, "appendonly.aof"))
 					os.WriteFile(filepath.Join(fdir, "appendonly.aof"), b, 0600)
 					r.write(false) // the leader moves on
+				case "diverged":
+					// the follower once was a copy of the leader (same first 600 kB of log),
+					// then lived on its own: its tail differs from the leader's at the same
+					// offsets and created things the shared prefix never mentions
+					os.MkdirAll(fdir, 0700)
+					vsched.Quiesce()
+					b, _ := os.ReadFile(filepath.Join(ldir, "appendonly.aof"))
+					os.WriteFile(filepath.Join(fdir, "appendonly.aof"), b, 0600)
+					f0 := x.Start("F", fdir, 9002, nil)
+					c := x.Dial(f0.Addr)
+					c.Do("SET", "own", "o1", "POINT", "5", "5")
+					c.Do("SETCHAN", "ownchan", "NEARBY", "own", "FENCE", "POINT", "5", "5", "100")
+					c.Do("SET", "lk", "w900", "STRING", big+"z")
+					c.Do("SET", "own", "o2", "POINT", "6", "6")
+					c.Close()
+					f0.Stop()
+					r.write(true) // the leader moves on too
+					r.write(false)
 				case "emptied":
 					// a log that is not empty although the dataset is: everything was deleted again
 					f0 := x.Start("F", fdir, 9002, nil)
